@@ -154,6 +154,26 @@ impl Drop for TestOwner {
     }
 }
 
+/// An owner that stores its bytes inline and is aligned more strictly than the crate's own header
+/// (the layout of the crate's owner box must not depend on the owner's alignment).
+#[repr(C, align(64))]
+pub struct InlineOwner {
+    pub bytes: [u8; 192],
+    pub len: usize,
+    pub stats: Arc<OwnerStats>,
+}
+impl AsRef<[u8]> for InlineOwner {
+    fn as_ref(&self) -> &[u8] {
+        self.stats.as_ref_calls.fetch_add(1, Relaxed);
+        &self.bytes[..self.len]
+    }
+}
+impl Drop for InlineOwner {
+    fn drop(&mut self) {
+        self.stats.drops.fetch_add(1, Relaxed);
+    }
+}
+
 pub struct OwnerRec {
     pub id: u32,
     pub stats: Arc<OwnerStats>,
